@@ -1242,6 +1242,7 @@ func runInterceptor(c *vf.Case) {
 			return 0, nil
 		}))
 		var curPkt []byte
+		mixedReaders := n > 1 && r.Chance(0.3)
 		readers := make([]interceptor.RTPReader, n)
 		for k := 0; k < n; k++ {
 			readers[k] = ic.BindRemoteStream(&interceptor.StreamInfo{SSRC: ssrcs[k]},
@@ -1264,7 +1265,13 @@ func runInterceptor(c *vf.Case) {
 			}
 			curPkt = append(hb, 1, 2, 3, 4)
 			at := time.Now()
-			if _, _, err := readers[p.k].Read(buf, nil); err != nil {
+			// a reader also delivers packets of other SSRCs than the one it was bound for (RTX,
+			// simulcast layers, an unsignalled SSRC): the report is about the packet's own SSRC
+			rk := p.k
+			if mixedReaders && r.Chance(0.3) {
+				rk = r.Intn(n)
+			}
+			if _, _, err := readers[rk].Read(buf, nil); err != nil {
 				setupErr = err
 				break
 			}
